@@ -35,7 +35,8 @@ pub enum Op {
     /// iterate a cross-archetype query (ecs_iter! or ecs_iter_borrow!)
     XIterate { sim: u8, q: u8, borrow: u8, brk: u8 },
     /// clone the world (adds a simulation; at the limit the last one is dropped first)
-    CloneWorld { sim: u8 },
+    /// `into` = 0: `world.clone()`; k > 0: `dst.clone_from(&world)` into the existing simulation k-1
+    CloneWorld { sim: u8, into: u8 },
     /// `std::mem::swap` of two worlds
     Swap { a: u8, b: u8 },
     /// drop a world (only if more than one exists)
@@ -49,6 +50,9 @@ pub enum Op {
     Forge { sim: u8, arch: u8, class: u8, x: u16, y: u16, route: u8 },
     /// full-intensity probe of everything
     Probe,
+    /// `k * 1024` creations in a row through the cheap path (no per-entity probes): brings slot and
+    /// dense indices beyond 16 bits into play. Never drawn by a profile; prepended by `--prefill`.
+    Prefill { sim: u8, arch: u8, k: u8 },
 }
 
 /// Header of a history: which world, how it is constructed.
@@ -97,13 +101,20 @@ impl Op {
             Mint { sim, h, how, kind } => w(&mut s, "mint", &[sim as u32, h as u32, how as u32, kind as u32]),
             Iterate { sim, arch, path, brk } => w(&mut s, "iterate", &[sim as u32, arch as u32, path as u32, brk as u32]),
             XIterate { sim, q, borrow, brk } => w(&mut s, "xiterate", &[sim as u32, q as u32, borrow as u32, brk as u32]),
-            CloneWorld { sim } => w(&mut s, "clone", &[sim as u32]),
+            CloneWorld { sim, into } => {
+                if into == 0 {
+                    w(&mut s, "clone", &[sim as u32])
+                } else {
+                    w(&mut s, "clone", &[sim as u32, into as u32])
+                }
+            }
             Swap { a, b } => w(&mut s, "swap", &[a as u32, b as u32]),
             DropWorld { sim } => w(&mut s, "drop_world", &[sim as u32]),
             ClearEvents { sim, arch } => w(&mut s, "clear_events", &[sim as u32, arch as u32]),
             Preset { sim, arch, d, spread } => w(&mut s, "preset", &[sim as u32, arch as u32, d as u32, spread as u32]),
             Forge { sim, arch, class, x, y, route } => w(&mut s, "forge", &[sim as u32, arch as u32, class as u32, x as u32, y as u32, route as u32]),
             Probe => w(&mut s, "probe", &[]),
+            Prefill { sim, arch, k } => w(&mut s, "prefill", &[sim as u32, arch as u32, k as u32]),
         }
         s
     }
@@ -127,13 +138,14 @@ impl Op {
             "mint" => Mint { sim: g(0)? as u8, h: g(1)? as u16, how: g(2)? as u8, kind: g(3)? as u8 },
             "iterate" => Iterate { sim: g(0)? as u8, arch: g(1)? as u8, path: g(2)? as u8, brk: g(3)? as u8 },
             "xiterate" => XIterate { sim: g(0)? as u8, q: g(1)? as u8, borrow: g(2)? as u8, brk: g(3)? as u8 },
-            "clone" => CloneWorld { sim: g(0)? as u8 },
+            "clone" => CloneWorld { sim: g(0)? as u8, into: a.get(1).copied().unwrap_or(0) as u8 },
             "swap" => Swap { a: g(0)? as u8, b: g(1)? as u8 },
             "drop_world" => DropWorld { sim: g(0)? as u8 },
             "clear_events" => ClearEvents { sim: g(0)? as u8, arch: g(1)? as u8 },
             "preset" => Preset { sim: g(0)? as u8, arch: g(1)? as u8, d: g(2)? as u8, spread: g(3)? as u8 },
             "forge" => Forge { sim: g(0)? as u8, arch: g(1)? as u8, class: g(2)? as u8, x: g(3)? as u16, y: g(4)? as u16, route: g(5)? as u8 },
             "probe" => Probe,
+            "prefill" => Prefill { sim: g(0)? as u8, arch: g(1)? as u8, k: g(2)? as u8 },
             other => return Err(format!("unknown op '{}'", other)),
         })
     }
@@ -247,7 +259,7 @@ impl Profile {
             Kind::Mint => Op::Mint { sim, h: a, how: (b & 0xff) as u8, kind: lo & 3 },
             Kind::Iterate => Op::Iterate { sim, arch: (a & 0xff) as u8, path: (b & 0xff) as u8, brk: lo % 12 },
             Kind::XIterate => Op::XIterate { sim, q: (a & 0xff) as u8, borrow: (b & 1) as u8, brk: lo % 12 },
-            Kind::CloneWorld => Op::CloneWorld { sim },
+            Kind::CloneWorld => Op::CloneWorld { sim, into: if lo % 3 == 2 { 1 + ((lo >> 2) & 3) } else { 0 } },
             Kind::Swap => Op::Swap { a: (a & 3) as u8, b: (b & 3) as u8 },
             Kind::DropWorld => Op::DropWorld { sim },
             Kind::ClearEvents => Op::ClearEvents { sim, arch: if b & 3 == 0 { 255 } else { (a & 0xff) as u8 } },
